@@ -118,16 +118,16 @@ def _finder_make(kind):
         from photutils.psf import CircularGaussianPRF
         xy = np.array([[10.3, 9.6], [15.2, 11.8], [30.7, 25.1], [36.4, 30.2]])
         if kind == 'dao_xy':
-            return DAOStarFinder(15.0, 3.0, xycoords=xy)
+            return DAOStarFinder(4.0, 3.0, xycoords=xy)
         if kind == 'iraf_xy':
-            return IRAFStarFinder(15.0, 3.0, xycoords=xy)
+            return IRAFStarFinder(4.0, 3.0, xycoords=xy)
         if kind == 'dao':
-            return DAOStarFinder(15.0, 3.0, brightest=3)
+            return DAOStarFinder(4.0, 3.0, brightest=3)
         if kind == 'iraf':
-            return IRAFStarFinder(15.0, 3.0)
+            return IRAFStarFinder(4.0, 3.0)
         y, x = np.mgrid[:9, :9]
         kern = CircularGaussianPRF(fwhm=3.0).evaluate(x, y, 1.0, 4, 4, 3.0)
-        return StarFinder(15.0, kern)
+        return StarFinder(4.0, kern)
     return mk
 
 
